@@ -639,7 +639,7 @@ func init() {
 		Rule: "case = (record set from the key families, strictly increasing offsets; even cases one offset per key, odd cases blocks of 1..64 adjacent keys sharing a block offset) + Q(K); oracle: through a DataReader that returns a record only if the stored key equals the query, Get (dense) / RangeGet (sparse) returns the record iff the query is indexed; the index of the previous case is kept alive and re-read after the next one has been built; non-trivial = at least 2 records; distinct by hash of keys and mode",
 		NumCases: func(tier string) int {
 			if tier == "thorough" {
-				return 30000
+				return 100000
 			}
 			return 2000
 		},
